@@ -30,17 +30,23 @@ RTOL = 1e-9
 
 CLAIM = {
     'technique': 'Lean 4 proof about an executable model + exact-rational differential correspondence',
-    'text': 'For every gain vector of length >= 1 with positive gains and every P > 0, N > 0, Es > 0 the model of '
-            'doWF (any argsort result satisfying the sort contract, any tie order) returns a value, the allocation '
-            'is non-negative, sums to P, equals max(0, mu - N/(Es g_i)) for the returned mu, maximises '
-            'sum log2(1 + g_i Es q_i / N) over all non-negative q with the same total (over R), is the unique pair '
-            'of that form, and is permutation equivariant; proved in Lean over an arbitrary linear ordered field '
-            '(optimality over R). The model is tied to waterfilling.py by running both on the same binary64 '
-            'inputs: the model in exact rational arithmetic.',
-    'note': 'Trusted additions: np.argsort is a parameter with a contract (checked per case); binary64 rounding is '
-            'outside the theorems (model compared at rtol 1e-9; bit-exact on the dyadic stream; the discrete '
-            'number of dropped channels compared only when every loop test is >= 1e-9 away from equality). '
-            'Hand model: behaviours the generators do not reach are not tied.',
+    'text': 'Proved in Lean (16 theorems, any vector length, arbitrary linear ordered field; optimality over R): '
+            'for every non-empty vector of positive gains, P > 0, N > 0, Es > 0 and EVERY argsort result '
+            'satisfying the sort contract (any tie order), the model of doWF returns a value; the allocation has '
+            'one entry per channel, is non-negative, sums to P, equals max(0, mu - N/(Es g_i)) for the returned '
+            'mu (channel i is switched off iff N/(Es g_i) >= mu); no non-negative allocation with the same total '
+            'has a larger sum log2(1 + g_i Es q_i / N); (p, mu) is the unique pair of that form; the result does '
+            'not depend on the tie order of the sort and is equivariant under every permutation of the channels. '
+            'The function run by the compiled driver is proved to be the Q instance of that model, and is compared '
+            'with waterfilling.py on the same binary64 inputs (model in exact rational arithmetic). '
+            'Independent oracles on the real code (form, sum, sign, KKT, competitors, permutation) find the '
+            'replay input when the tie breaks.',
+    'note': 'Trusted additions: np.argsort is a parameter with a contract (permutation, non-decreasing gains), '
+            'checked on every case; binary64 rounding is outside the theorems (allocation and level compared at '
+            '1e-9 relative to max(1, P, mu); bit-exact on the dyadic stream; the discrete number of switched-off '
+            'channels compared only when every loop test is >= 1e-9 away from equality, since the allocation is '
+            'continuous across such ties). Hand model (no translator): a behaviour the generators do not reach is '
+            'not tied. Finding fixed in the worktree: returned level omitted Es (commit 2825de0).',
 }
 
 
@@ -254,9 +260,19 @@ def threshold_P(g, N, Es, k):
     return k * a[k - 1] - sum(a[:k])
 
 
-def gen_case(rng, nmax):
+def quantize(x, bits):
+    """binary64 value with a `bits`-bit mantissa (keeps the exact-rational model cheap for long
+    vectors: the common denominator of the levels N/(Es g) stays bounded)"""
+    m, e = math.frexp(x)
+    return math.ldexp(round(m * (1 << bits)) / float(1 << bits), e)
+
+
+def gen_case(rng, nmax, nmin=1):
     style = rng.choice(['decades', 'decades', 'narrow', 'equal', 'ties', 'tiny', 'ints'])
-    n = rng.choice([1, 1, 2, 2, 3, 3, 4, 5, 6, 8]) if rng.chance(0.5) else rng.randint(1, nmax)
+    if nmin > 1:
+        n = rng.randint(nmin, nmax)
+    else:
+        n = rng.choice([1, 1, 2, 2, 3, 3, 4, 5, 6, 8]) if rng.chance(0.5) else rng.randint(1, nmax)
     if style == 'decades':
         span = rng.choice([1.0, 3.0, 6.0, 12.0])
         c = rng.uniform(-3, 3)
@@ -273,6 +289,9 @@ def gen_case(rng, nmax):
         g = [logu(rng, -9, -5) for _ in range(n)]
     else:
         g = [float(rng.randint(1, 9)) for _ in range(n)]
+    if n > 12:
+        bits = 16 if n <= 32 else 8
+        g = [quantize(x, bits) for x in g]
     N = rng.choice([1.0, 1.0, logu(rng, -2, 2), 0.5])
     Es = rng.choice([1.0, logu(rng, -2, 2), 2.0, 0.25, logu(rng, -1, 1)])
     # choose P around the threshold of a target number of used channels, so that
@@ -283,8 +302,8 @@ def gen_case(rng, nmax):
     mode = rng.below(4)
     if mode == 0 and t_next is not None and t_next > t:
         P = t + (t_next - t) * rng.uniform(0.02, 0.98)
-    elif mode == 1:
-        P = max(t, 1e-12) * logu(rng, 0.01, 2)
+    elif mode == 1 and t > 0:
+        P = t * logu(rng, 0.01, 2)
     elif mode == 2:
         P = logu(rng, -3, 3)
     else:
@@ -379,7 +398,10 @@ def compare_one(ctx, case, m):
     s = scale_of(cc, float(m['mu']))
     tol = RTOL * s
     mp = np.array([float(x) for x in m['p']])
+    # binary64 evaluation is exact when gains, N, Es are powers of two (all levels dyadic) and
+    # the model's result is a short dyadic (then so is every intermediate of the code)
     dyadic_exact = case.get('style') == 'dyadic' and all(
+        math.frexp(x)[0] == 0.5 for x in cc['g'] + [cc['N'], cc['Es']]) and all(
         (x.denominator & (x.denominator - 1)) == 0 and x.denominator <= 2 ** 30 and x.numerator < 2 ** 45
         for x in m['p'] + [m['mu']])
     dropped = n - m['kept']
@@ -432,10 +454,26 @@ def malformed(ctx):
 
 
 # ------------------------------------------------------------------ check
-def make_cases(ctx, n_rand, n_dyadic, nmax):
+def grid_cases():
+    """thorough tier: every gain vector over {1/2,1,2,3} of length 1..4 x a grid of P, N, Es"""
+    import itertools
+    out = []
+    for n in range(1, 5):
+        for g in itertools.product([0.5, 1.0, 2.0, 3.0], repeat=n):
+            for P in (0.125, 0.5, 1.0, 3.0, 10.0):
+                for N in (0.5, 1.0):
+                    for Es in (0.5, 1.0, 2.0):
+                        out.append({'g': list(g), 'P': P, 'N': N, 'Es': Es, 'style': 'dyadic'})
+    return out
+
+
+def make_cases(ctx, n_rand, n_dyadic, nmax, n_big=0, grid=False):
     cases = [dict(c) for c in BOUNDARY] + [dict(c) for c in corpus_cases()]
     cases += [gen_case(ctx.rng, nmax) for _ in range(n_rand)]
+    cases += [gen_case(ctx.rng, 256, nmin=129) for _ in range(n_big)]
     cases += [gen_dyadic(ctx.rng) for _ in range(n_dyadic)]
+    if grid:
+        cases += grid_cases()
     return cases
 
 
@@ -455,18 +493,18 @@ def oracles(ctx, cases):
 
 
 def check(ctx):
-    ctx.rule = ('gain vectors of length 1..64 (quick) / 1..256 (thorough): log-uniform over 1/3/6/12 decades, '
+    ctx.rule = ('gain vectors of length 1..64 (quick) / 1..256 (thorough; vectors longer than 12 use 16/8-bit mantissas): log-uniform over 1/3/6/12 decades, '
                 'narrow (1e-3 spread), all equal, few distinct values (ties), tiny gains, small integers; '
                 'N, Es in 1e-2..1e2 (Es=1 and Es!=1); P placed between the thresholds of a target number of used '
                 'channels, at multiples of a threshold, or log-uniform; plus a dyadic stream (powers of two) '
-                'compared bit-exactly, boundary cases and corpus/c12. Inputs are binary64 values sent to the model '
+                'compared bit-exactly, boundary cases and corpus/c12; thorough adds every vector over {1/2,1,2,3} of length <= 4 on a P/N/Es grid. Inputs are binary64 values sent to the model '
                 'as exact rationals. non-trivial = distinct input with >= 2 channels')
     quick = ctx.tier == 'quick'
-    n_rand, n_dyadic, nmax = (1500, 600, 64) if quick else (40000, 12000, 256)
+    n_rand, n_dyadic, nmax, n_big = (3000, 1000, 64, 0) if quick else (20000, 10000, 128, 600)
     core.prove(ctx, MODULE, generated=[], drivers=[DRIVER], scratch=ctx.scratch)
     ctx.required_branches = ['dropped=0', 'dropped>=1', 'only-best-kept', 'Es!=1', 'ties', 'n=1', 'n>=32',
                              'gain-spread>=1e9', 'exact-dyadic', 'error-case']
-    cases = make_cases(ctx, n_rand, n_dyadic, nmax)
+    cases = make_cases(ctx, n_rand, n_dyadic, nmax, n_big, grid=not quick)
     try:
         correspondence(ctx, cases)
         malformed(ctx)
@@ -475,7 +513,9 @@ def check(ctx):
             raise
         ctx.notes.append('correspondence skipped: %s' % e)
         ctx.required_branches = []
-    oracles(ctx, cases if quick else cases[:len(BOUNDARY) + 12000] + cases[-3000:])
+    oracles(ctx, cases)
+    if not quick:
+        ctx.branch('grid-enumeration', len(grid_cases()))
 
 
 def search(ctx):
